@@ -321,6 +321,56 @@ def r8(F, rep):
     companion_shape(F, rep, "C15-R8")
 
 
+def mult_offset(F, rep, rid):
+    """Shared with C03-R11 (the state reader stores through value_input)."""
+    rep.rule(rid, "multi-valued grids address one component of one bin: in a grid class whose constructors pass a multiplicity "
+                  "other than the literal 1 to the base grid (the gradient grid: one value per variable and bin), every "
+                  "subscript of the data array in an element accessor that takes a component number (value, value_output, "
+                  "value_input, set_value, acc_*) contains that parameter")
+    grid = set(F.subclasses("colvar_grid_params"))
+    multi = set()
+    for f in F.funcs.values():
+        if f.ctor and f.cls in grid and "/src/" in f.file:
+            for it in f.inits:
+                e = it.get("e") or it.get("init")
+                if it.get("base") is None or e is None:
+                    continue
+                args = X.call_args(X.strip(e)) if X.strip(e)["k"] in ("CXXConstructExpr", "CXXTemporaryObjectExpr") else []
+                if len(args) >= 3 and C._lit(X.strip(args[2])) != 1 and C._lit(X.strip(args[2])) is not None or \
+                        (len(args) >= 3 and C._lit(X.strip(args[2])) is None and "size" in X.key(args[2], f)):
+                    multi.add(f.cls)
+    if not multi:
+        raise AnalysisBroken("%s: no multi-valued grid class found (colvar_grid_gradient expected)" % rid)
+    n = 0
+    seen = set()
+    for f in F.funcs.values():
+        if f.cls not in multi or f.body is None or "/src/" not in f.file or f.ctor:
+            continue
+        ints = [p for p in f.params if f.typestr(p["t"]).replace("const ", "").replace("&", "").strip() in ("unsigned long", "int", "size_t", "std::size_t", "unsigned int")]
+        vecs = [p for p in f.params if "vector<int" in f.typestr(p["t"])]
+        if not ints or not vecs:
+            continue
+        comp = ints[-1]          # by convention the component number is the last integer parameter
+        for u in f.walk():
+            if not (u["k"] == "CXXOperatorCallExpr" and u.get("op") == "[]" and X.key(X.call_args(u)[0], f) == "this.data"):
+                continue
+            key = (f.q, X.re_strip(X.key(X.call_args(u)[1], f)), u.get("l"))
+            if key in seen:
+                continue
+            seen.add(key)
+            n += 1
+            ok = X.mentions(X.call_args(u)[1], lambda m: m["k"] == "DeclRefExpr" and m.get("d") == comp["d"])
+            rep.add(rid, "%s|data[%s]" % (f.q, key[1][:40]), f.loc(u), "%s(…, %s) addresses `data[%s]`%s" % (
+                f.q, comp["n"], key[1][:50], "" if ok else " -- WITHOUT the component number"), ok,
+                detail="every component of a bin is read from or written to component 0", func=f.q)
+    if n < 4:
+        raise AnalysisBroken("%s: only %d per-component data accesses found" % (rid, n))
+
+
+def r10(F, rep):
+    mult_offset(F, rep, "C15-R10")
+
+
 def _walk(n):
     yield n
     for c in X.kids(n):
@@ -377,6 +427,7 @@ def r9(F, rep, rid="C15-R9"):
 
 def run(F, rep, tier):
     r8(F, rep)
+    r10(F, rep)
     r9(F, rep)
     r1(F, rep)
     r3(F, rep)
